@@ -170,7 +170,7 @@ func runC20(r *Run) {
 				if e, ok := val.(*ssa.Extract); ok && e.Tuple == d.Value() && e.Index == 0 {
 					for _, br := range branchesIn(f) {
 						if e2, ok := stripValue(br.Info.Root).(*ssa.Extract); ok && e2.Tuple == d.Value() && e2.Index == 1 {
-							if sl, ok := br.nilSlot(true); ok && br.If.Block().Succs[sl].Dominates(s.Block()) {
+							if sl, ok := br.nilSlot(true); ok && dom(br.If.Block().Succs[sl], s.Block()) {
 								okV = true
 							}
 						}
@@ -283,7 +283,7 @@ func runC20(r *Run) {
 			gated := false
 			for _, br := range branchesIn(d) {
 				if e, ok := stripValue(br.Info.Root).(*ssa.Extract); ok && e.Tuple == open[0].Value() && e.Index == 1 {
-					if sl, ok := br.nilSlot(true); ok && br.If.Block().Succs[sl].Dominates(ret.Block()) {
+					if sl, ok := br.nilSlot(true); ok && dom(br.If.Block().Succs[sl], ret.Block()) {
 						gated = true
 					}
 				}
@@ -309,7 +309,7 @@ func runC20(r *Run) {
 		errChecked := false
 		for _, br := range branchesIn(e) {
 			if ex, ok := stripValue(br.Info.Root).(*ssa.Extract); ok && ex.Tuple == rf[0].Value() && ex.Index == 1 {
-				if sl, ok := br.nilSlot(true); ok && br.If.Block().Succs[sl].Dominates(seal[0].Block()) {
+				if sl, ok := br.nilSlot(true); ok && dom(br.If.Block().Succs[sl], seal[0].Block()) {
 					errChecked = true
 				}
 			}
@@ -360,7 +360,7 @@ func isCfgNextSkip(h *ssa.Function, next ssa.Instruction) bool {
 		for _, br := range ifsOnValue(h, c.Value()) {
 			if s, ok := br.truthSlot(true); ok {
 				tgt := br.If.Block().Succs[s]
-				if len(tgt.Preds) == 1 && tgt.Dominates(next.Block()) {
+				if len(tgt.Preds) == 1 && dom(tgt, next.Block()) {
 					return true
 				}
 			}
